@@ -138,7 +138,8 @@ func serializeAttrs(pc *PrintCtx, kvps Attrs) (err error) { //nolint:revive
 	inGroupedMode := pc.inGroupedMode
 
 	if pc.dedupeAttrs {
-		slices.SortFunc(kvps, func(a, b Attr) int {
+		// stable: among attributes with the same key the last one must stay last
+		slices.SortStableFunc(kvps, func(a, b Attr) int {
 			if a == nil {
 				if b == nil {
 					return 0
